@@ -40,6 +40,16 @@ func (handler *InvHandler) Handle(ctx context.Context, m wire.Message) ([]wire.M
 
 	// We don't care about tx announcments until we are in sync
 	if !handler.state.IsReady() {
+		// A block announced by inventory must not be lost though. When the last headers request
+		// found nothing new the node gets in sync as soon as the outstanding blocks are processed,
+		// without requesting the header of a block found since then. Being in sync has to be
+		// confirmed by the peer again.
+		for _, item := range msg.InvList {
+			if item.Type == wire.InvTypeBlock {
+				handler.state.ClearInSync()
+				break
+			}
+		}
 		return nil, nil
 	}
 
